@@ -44,6 +44,8 @@ type HdrDef struct {
 	// another validator set id while the hashes stay those of VS/NVS (C07 forged copies).
 	ListsVS  string `json:"listsVS,omitempty"`
 	ListsNVS string `json:"listsNVS,omitempty"`
+	// App, when set, overrides the header's PrevAppStateHash (headers the state machine must reject).
+	App string `json:"app,omitempty"`
 }
 
 type WorldDef struct {
@@ -370,6 +372,9 @@ func (w *World) Header(l string) tmconsensus.Header {
 		NextValidatorSet: nvs,
 		DataID:           []byte(d.Data),
 		PrevAppStateHash: []byte(fmt.Sprintf("app_state_%d", d.H-1)),
+	}
+	if d.App != "" {
+		h.PrevAppStateHash = []byte(d.App)
 	}
 	hash, err := w.HashScheme.Block(h)
 	if err != nil {
